@@ -254,13 +254,17 @@ def check_case(case, acc):
                       and table.get(key) == "hit")
                 m2 = HomogeneousMatrix((1.0, 2.0, 3.0), (1.0, 0.0, 0.0, 0.0), a, b)
                 ok = ok and m2.src is s and m2.dst is d
-                # registry lookup through every entry point, lower-case strings and enums are interchangeable
-                if not (isinstance(a, str) and a.isupper()) and not (isinstance(b, str) and b.isupper()):
-                    got = td.get((a, b))
-                    ok = ok and got is mat and td[(a, b)] is mat and td.get(key) is mat
+                # registry lookup through every entry point: strings (lower case, and upper case as FrameID.from_value documents) and
+                # enums are interchangeable, as tuple and as list; an X-to-X query is left out (the same-frame shortcut compares raw parts)
+                for mk in (tuple, list):
+                    got = td.get(mk((a, b)))
+                    ok = ok and got is mat and td[mk((a, b))] is mat and td.get(key) is mat
                     if s != d:
-                        p = td.transform((a, b), (0.5, 0.0, -1.0))
+                        p = td.transform(mk((a, b)), (0.5, 0.0, -1.0))
                         ok = ok and np.allclose(p, (1.5, 2.0, 2.0))
+                        # the unregistered direction is answered by the inverse, under every spelling
+                        q = td.transform(mk((b, a)), (1.5, 2.0, 2.0))
+                        ok = ok and np.allclose(q, (0.5, 0.0, -1.0))
                 # item assignment under every spelling registers the same entry
                 td2 = TransformDict()
                 td2[(a, b)] = mat
